@@ -418,6 +418,12 @@ func (w *world) run() {
 	if w.fair {
 		nc = 3 + t.Choice(6)
 		nw = 1 + t.Choice(3)
+		if t.Bool(1, 4) {
+			// Light load: more workers than work, so that workers park
+			// idle and are woken by drains, hand-offs and new tasks.
+			nc = 1 + t.Choice(2)
+			nw = 2 + t.Choice(3)
+		}
 	}
 	for i := 0; i < nc; i++ {
 		c := newClient(w, i)
